@@ -1,6 +1,7 @@
 (* Extraction of the C30 model (run from the output directory; not part of `make`). *)
-From Coq Require Import QArith ZArith.
-From SE Require Import C30.SolveModel.
+From Coq Require Import QArith ZArith Qcanon.
+From SE Require Import C30.SolveModel C24.DenseModel C30.LinsolveModel.
 Require Import ExtrOcamlBasic.
-Extraction "solve_model.ml" solve_poly solve_polyexpr solve_poly_heuristics solve_rational linsolve
+Extraction "solve_model.ml" solve_poly solve_polyexpr solve_poly_heuristics solve_rational
+  linsolve_dense linsolve_helper mkmat Q2Qc this
   Qred Z.add Z.mul Z.opp Z.div_eucl.
